@@ -412,7 +412,14 @@ class Hist(Scenario):
 
     def op_amend(self):
         self.report_human_edits()
-        if self.rng.random() < 0.15 and self.ncommits() >= 1:
+        noop = self.rng.random() < 0.15 and self.ncommits() >= 1
+        if noop and not self.profile.get("unstaged_replacement_hunks", True):
+            # finding D82: the amend re-maps work-tree attributions onto the commit; unstaged hunks that REPLACE committed lines are its
+            # open case, so the no-op amend is made only over pending work that merely adds lines
+            ns = self.w.ogit("diff", "--numstat", "--no-renames").split("\n")
+            if any(l.split("\t")[1:2] not in ([], ["0"]) for l in ns if l.strip()):
+                noop = False
+        if noop:
             # an amend that changes nothing, within the same second: it reproduces the same commit id while work may be pending
             # (repaired finding D90)
             ct = self.w.ogit("log", "-1", "--format=%ct").strip()
